@@ -152,6 +152,10 @@ fn corpus() -> Vec<Edge> {
         edge("unterminated", "#[typeshare]\npub struct A { pub a: u8 \n"),
         edge("bom-and-crlf", "\u{feff}#[typeshare]\r\npub struct A { pub a: u8 }\r\n"),
         edge("shebang", "#!/usr/bin/env run-cargo-script\n#[typeshare]\npub struct A { pub a: u8 }\n"),
+        edge("unknown-generic-type", "#[typeshare]\npub struct A { pub a: Foreign<u8>, pub b: Vec<other::Foreign<Local, u8>> }\n#[typeshare]\npub struct Local { pub x: u8 }\n"),
+        edge("unknown-simple-type", "#[typeshare]\npub struct A { pub a: Foreign, pub b: Option<some::path::Foreign> }\n#[typeshare]\npub type B = Foreign;\n#[typeshare]\n#[serde(tag = \"t\", content = \"c\")]\npub enum E { V(Foreign), W { f: Foreign } }\n"),
+        edge("renamed-tagged-enum-self-reference", "#[typeshare]\n#[serde(rename = \"NodeV2\", tag = \"t\", content = \"c\")]\npub enum Node { Leaf(u8), Pair(Box<Node>), Many { kids: Vec<Node> } }\n#[typeshare]\npub struct Holder { pub n: Node }\n"),
+        edge("renamed-everything-cycle", "#[typeshare]\n#[serde(rename = \"AA\")]\npub struct A { pub b: Option<Box<B>> }\n#[typeshare]\n#[serde(rename = \"BB\")]\npub struct B { pub a: Vec<A>, pub c: C }\n#[typeshare]\n#[serde(rename = \"CC\")]\npub type C = Vec<A>;\n"),
         edge("macro-rules-with-attr", "macro_rules! m { () => { #[typeshare] pub struct InMacro { pub a: u8 } } }\nm!();\n#[typeshare]\npub struct A { pub a: u8 }\n"),
     ];
     // bare `use` of a crate name and odd use trees (multi-file import collection)
